@@ -173,7 +173,10 @@ func runC14(cfg *config, res *monitor.Result) {
 		}
 	}
 	// input pool: deliberately different shapes
-	type shape struct{ v, s, n, n4 int; empty bool }
+	type shape struct {
+		v, s, n, n4 int
+		empty       bool
+	}
 	shapes := []shape{{0, 0, 0, 0, false}, {1, 1, 1, 0, false}, {2, 0, 3, 1, false}, {5, 2, 9, 0, true}, {40, 5, 0, 3, false},
 		{0, 1, 1, 1, true}, {1, 0, 2, 0, true}, {3, 40, 4, 9, false}, {0, 0, 9, 0, false}, {2, 2, 0, 0, false}}
 	stale := int64(0)
